@@ -317,6 +317,11 @@ pub fn clicases(kind: &str, seed: u64, n: usize) -> Value {
                     "lines": lines_json,
                 }));
             }
+            "c19" => {
+                if let Some(v) = crate::c19::gen_case(&mut rng) {
+                    out.push(v);
+                }
+            }
             "c13" => {
                 let case = match crate::c13::gen_case(&mut rng, &corpus) {
                     Some(c) => c,
